@@ -394,3 +394,57 @@ func VerifC18MultiExpr() {
 	nd.Assert(h.F == want, "C18: the field receives the expressions' results in place")
 	nd.Cover("several expressions in one tag")
 }
+
+type vPtrHolder struct {
+	PS *string `value:"x"`
+	PI *int    `value:"x"`
+}
+
+// C18 (c”): a pointer-typed scalar field is validated as what was bound - the pointer: for the
+// validator a non-nil pointer "has a value" even when it points at a zero value.
+func VerifC18ValidatePointer() {
+	reg := support.DefaultDefinitionRegistry()
+	va := NewValueAwarePostProcessors().(*valueAwarePostProcessors)
+	h := &vPtrHolder{}
+	nd.Assert(va.PostProcessDefinitionRegistry(reg, h, "h") == nil, "scan ok")
+	meta := reg.GetMetaByName("h")
+	useInt := nd.Bool()
+	isNil := nd.Bool()
+	var bound any
+	fld := meta.Fields[0]
+	constraint, constraintTag := "", ""
+	if useInt {
+		fld = meta.Fields[1]
+		ci := nd.Choose(3)
+		constraint = []string{"required", "omitempty,gt=5", "gt=5"}[ci]
+		constraintTag = []string{"required", "omitempty gt=5", "gt=5"}[ci]
+		if !isNil {
+			v := []int{0, 7}[nd.Choose(2)]
+			h.PI = &v
+		}
+		bound = h.PI
+	} else {
+		ci := nd.Choose(3)
+		constraint = []string{"required", "omitempty,min=2", "min=2"}[ci]
+		constraintTag = []string{"required", "omitempty min=2", "min=2"}[ci]
+		if !isNil {
+			v := []string{"", "a", "abc"}[nd.Choose(3)]
+			h.PS = &v
+		}
+		bound = h.PS
+	}
+	prop := component_definition.NewProperty(fld, component_definition.PropertyTypeConfiguration, "value", "x,validate="+constraintTag)
+	vd := NewValidateAwarePostProcessors()
+	var err error
+	panicked := nd.Catch(func() {
+		_, err = vd.PostProcessProperties([]*component_definition.Property{prop}, h, "h")
+	})
+	nd.Assert(!panicked, "C09: validation never panics")
+	verdict := validator.New(validator.WithRequiredStructEnabled()).Var(bound, constraint)
+	if verdict != nil {
+		nd.Cover("pointer constraint violated")
+	} else {
+		nd.Cover("pointer constraint satisfied")
+	}
+	nd.Assert((err != nil) == (verdict != nil), "C18: start-up fails exactly when the bound (pointer) value violates the stated constraints")
+}
